@@ -6,7 +6,10 @@
                                          add_block_transactions_back}
      src/core/consensus/block.rs        Block::create (the drain of the transaction map and the
                                          double-spend detection that can fail after it)
-   No proofs here.
+   No proofs here.  The model describes /repo after the fixes 0fedb86, 222ce93, 2cf0b5a,
+   cafb4ab, ff837ac (delete_transactions rebuilds utxo_map from the transactions that are
+   still pooled; add_block_transactions_back re-inserts through add_transaction; a failed
+   Block::create leaves an empty index and a zero work cache).
 
    Abstraction.  Signatures, utxoset keys and hashes are interned numbers.  A
    transaction carries what the pool reads of it: its signature [t_id] (key of
@@ -122,7 +125,8 @@ Definition add_golden_ticket (p : pool) (target id : N) : pool :=
   else set_gts p ((target, id) :: gts p).
 
 (* ---- Mempool::delete_transactions: removes from [transactions] / [golden_tickets],
-        recomputes the cached work from what is left, and does NOT touch utxo_map ---- *)
+        recomputes the cached work from what is left, and rebuilds utxo_map from the
+        inputs of the transactions that are still pooled (rebuild_utxo_map) ---- *)
 Definition delete_one (p : pool) (t : tx) : pool :=
   match t_type t with
   | TGoldenTicket => set_gts p (del_gt (t_target t) (gts p))
@@ -131,9 +135,14 @@ Definition delete_one (p : pool) (t : tx) : pool :=
 
 Definition sum_work (l : list tx) : N := fold_left (fun w t => wadd w (t_work t)) l 0.
 
+Definition block_keys (l : list tx) : list N := flat_map in_keys l.
+
+Definition rebuild_utxo_map (p : pool) : pool :=
+  mkP (txs p) (fold_right sadd [] (block_keys (txs p))) (work p) (fresh p) (gts p).
+
 Definition delete_transactions (p : pool) (l : list tx) : pool :=
   let p1 := fold_left delete_one l p in
-  set_work p1 (sum_work (txs p1)).
+  rebuild_utxo_map (set_work p1 (sum_work (txs p1))).
 
 (* ---- Mempool::delete_block ---- *)
 Definition delete_block (p : pool) (block_hash : N) : pool :=
@@ -145,21 +154,26 @@ Definition remove_block_transactions (ledger : list N) (p : pool) (btxs : list t
   delete_transactions (set_txs p (filter (valid_against ledger) (txs p))) btxs.
 
 (* ---- Blockchain::add_block_failure = delete_block + add_block_transactions_back:
-        Normal transactions of a block created by this node that validate are put
-        back with HashMap::insert, bypassing utxo_map and the cached work ---- *)
+        Normal transactions of a block created by this node that validate are handed to
+        Mempool::add_transaction one by one (reservation check, reservations, work cache) ---- *)
 Definition is_normal (t : tx) : bool := match t_type t with TNormal => true | _ => false end.
-
-Definition insert_tx (l : list tx) (t : tx) : list tx := t :: del_tx (t_id t) l.
 
 Definition back_txs (ledger : list N) (btxs : list tx) : list tx :=
   filter (fun t => is_normal t && tx_validate ledger t) btxs.
 
-Definition add_block_transactions_back (ledger : list N) (p : pool) (mine : bool) (btxs : list tx) : pool :=
-  if mine then
-    mkP (fold_left insert_tx (back_txs ledger btxs) (txs p)) (umap p) (work p) true (gts p)
-  else p.
+Fixpoint add_all (p : pool) (l : list tx) : res pool :=
+  match l with
+  | [] => Ok p
+  | t :: r => do p1 <- add_transaction p t; add_all p1 r
+  end.
 
-Definition add_block_failure (ledger : list N) (p : pool) (block_hash : N) (mine : bool) (btxs : list tx) : pool :=
+Definition add_block_transactions_back (ledger : list N) (p : pool) (mine : bool) (btxs : list tx) : res pool :=
+  if mine then
+    do p1 <- add_all p (back_txs ledger btxs);
+    Ok (mkP (txs p1) (umap p1) (work p1) true (gts p1))
+  else Ok p.
+
+Definition add_block_failure (ledger : list N) (p : pool) (block_hash : N) (mine : bool) (btxs : list tx) : res pool :=
   add_block_transactions_back ledger (delete_block p block_hash) mine btxs.
 
 (* ---- Mempool::can_bundle_block.  [env_ok] collects the conditions that do not read
@@ -171,13 +185,11 @@ Definition can_bundle_block (p : pool) (env_ok : bool) (work_needed : N) : bool 
   env_ok && negb (is_nil (txs p)) && fresh p && (work_needed <=? work p).
 
 (* ---- Block::create: fails with "double-spend detected" when a value-carrying input key
-        occurs twice among the non-Fee transactions of the block; by then the pool has
-        been drained ---- *)
+        occurs twice among the non-Fee transactions of the block (its own rebroadcast
+        transactions included); by then the pool has been drained ---- *)
 Definition spent_keys (l : list tx) : list N :=
   flat_map (fun t => match t_type t with TFee => [] | _ => vkeys t end) l.
 Definition dup_spend (l : list tx) : bool := has_dup (spent_keys l).
-
-Definition block_keys (l : list tx) : list N := flat_map in_keys l.
 
 (* ---- Mempool::bundle_block.  [stake] = result of Wallet::create_staking_transaction
         (None = Err); [extra] = the transactions Block::create adds besides the pool's:
@@ -192,8 +204,9 @@ Definition bundle_block (ledger : list N) (p : pool) (env_ok : bool) (work_neede
       do p1 <- add_transaction_if_validates ledger p st;
       let block := txs p1 ++ extra in
       if dup_spend block then
-        (* Block::create returned Err after transactions.drain(); bundle_block's `.ok()?` *)
-        Ok (set_txs p1 [], None)
+        (* Block::create returned Err after transactions.drain(): the drained transactions
+           are gone; rebuild_utxo_map() on the empty map, cache zeroed, new_tx_added kept *)
+        Ok (mkP [] [] 0 (fresh p1) (gts p1), None)
       else
         Ok (mkP [] (fold_left (fun m k => srem k m) (block_keys block) (umap p1)) 0 false (gts p1),
             Some block)
@@ -236,7 +249,7 @@ Definition step (s : state) (o : op) : res (state * option (list tx)) :=
       Ok (mkS (fst r) (ledger s), snd r)
   | OBlockAdded l btxs => Ok (mkS (remove_block_transactions l (pl s) btxs) l, None)
   | OBlockFailed h mine btxs =>
-      Ok (mkS (add_block_failure (ledger s) (pl s) h mine btxs) (ledger s), None)
+      do p <- add_block_failure (ledger s) (pl s) h mine btxs; Ok (mkS p (ledger s), None)
   end.
 
 Fixpoint run (s : state) (ops : list op) : res state :=
@@ -245,53 +258,11 @@ Fixpoint run (s : state) (ops : list op) : res state :=
   | o :: r => do x <- step s o; run (fst x) r
   end.
 
-(* ---- the removal paths that leave the pool's three structures out of step
-        (decidable classes of (state, operation)) ---- *)
-Definition in_block (t : tx) (btxs : list tx) : bool :=
-  existsb (fun u => match t_type u with TGoldenTicket => false | _ => t_id u =? t_id t end) btxs.
-
-(* a block addition that invalidates a pooled transaction which is not in the block (the
-   block spends one of its inputs): the retain of remove_block_transactions drops it,
-   the reservations of all its inputs stay *)
-Definition ev_invalidated (s : state) (o : op) : bool :=
-  match o with
-  | OBlockAdded l b =>
-      existsb (fun t => negb (valid_against l t) && negb (in_block t b)) (txs (pl s))
-  | _ => false
-  end.
-
-(* a block that contains a pooled transaction with inputs: the transaction leaves the pool
-   (by the retain when the block is on the longest chain, by delete_transactions when it is
-   not), its reservations stay *)
-Definition ev_confirmed (s : state) (o : op) : bool :=
-  match o with
-  | OBlockAdded l b =>
-      existsb (fun t => in_block t b && negb (is_nil (t_inputs t))) (txs (pl s))
-  | _ => false
-  end.
-
-(* a bundle whose Block::create fails after the drain *)
+(* ---- the one step class in which the pool still loses transactions: a bundle whose
+        Block::create fails after the drain ---- *)
 Definition ev_failed_create (s : state) (o : op) : bool :=
   match o with
   | OBundle env wn stake extra => create_fails (ledger s) (pl s) env wn stake extra
-  | _ => false
-  end.
-
-(* a failed block of this node's own making puts transactions back *)
-Definition ev_readded (s : state) (o : op) : bool :=
-  match o with
-  | OBlockFailed _ true b => negb (is_nil (back_txs (ledger s) b))
-  | _ => false
-  end.
-
-(* signatures bind inputs: a transaction put back under a signature that is already
-   pooled has the inputs of the pooled one (a modelling side condition, not a defect) *)
-Definition ev_sig_collision (s : state) (o : op) : bool :=
-  match o with
-  | OBlockFailed _ true b =>
-      existsb (fun u => existsb (fun t => (t_id t =? t_id u) && negb (eqb_lN (in_keys t) (in_keys u)))
-                                (txs (pl s) ++ back_txs (ledger s) b))
-              (back_txs (ledger s) b)
   | _ => false
   end.
 
